@@ -19,7 +19,7 @@ RULE = ("Short texts (Hypothesis: <=4 vocabulary tokens, structured families, bu
         "+ rule names) is a path of the graph ending in a sequence containing it; with depth 0 every "
         "element of a fully reduced sequence is streamed (by value); argument snapshots before/after "
         "every production are equal (registry wrapped in place) and every yielded candidate is "
-        "unchanged when the stream ends. Plus a pinned list of texts with large search fronts at unlimited depth x 8 scorers. Non-trivial = distinct (text, ts) whose graph has >=2 maximal "
+        "unchanged when the stream ends; the stream with latent_time=True equals the latent-off stream with every value anchored by a harness-side statement of the anchoring rule (same productions, same scores). Plus a pinned list of texts with large search fronts at unlimited depth x 8 scorers. Non-trivial = distinct (text, ts) whose graph has >=2 maximal "
         "sequences or >=3 rule applications.")
 
 MAX_STATES = 20000
@@ -295,6 +295,50 @@ def check(text, ts, scorer_spec, depth, clo=None):
     return out, clo
 
 
+def ref_anchor(v, ts):
+    """harness-side statement of latent anchoring: a pure clock time becomes its first occurrence strictly after the
+    reference minute; a pure clock range starts at that occurrence of its start and ends at the end time of that day,
+    moved 12 h (both hours on the 12h dial and that is enough) or to the next day if it would not be after the start"""
+    def pure(t):
+        return t is not None and t[1] is None and t[2] is None and t[3] is None and t[4] is not None and t[6] is None and t[7] is None
+
+    if v[0] == "T" and pure(v):
+        h, mi = v[4], v[5] or 0
+        d = ts.date() if h * 60 + mi > ts.hour * 60 + ts.minute else ts.date() + dt.timedelta(days=1)
+        return ("T", d.year, d.month, d.day, h, mi, None, None)
+    if v[0] == "I" and pure(v[1]) and pure(v[2]):
+        sh, smi, eh, emi = v[1][4], v[1][5] or 0, v[2][4], v[2][5] or 0
+        d = ts.date() if sh * 60 + smi > ts.hour * 60 + ts.minute else ts.date() + dt.timedelta(days=1)
+        s_ = dt.datetime(d.year, d.month, d.day, sh, smi)
+        e_ = dt.datetime(d.year, d.month, d.day, eh, emi)
+        if e_ <= s_:
+            if sh <= 12 and eh <= 12 and e_ + dt.timedelta(hours=12) > s_:
+                e_ += dt.timedelta(hours=12)
+            else:
+                e_ += dt.timedelta(days=1)
+        return ("I", ("T", s_.year, s_.month, s_.day, s_.hour, s_.minute, None, None),
+                ("T", e_.year, e_.month, e_.day, e_.hour, e_.minute, None, None))
+    return v
+
+
+def check_latent(text, ts, scorer_spec, depth):
+    """the stream with latent_time=True is the stream with latent_time=False, each value anchored - nothing else may
+    differ (anchoring happens after the search and must not feed back into it)"""
+    m, R, T = _lib()
+    try:
+        off = [c for c in m.ctparse_gen(text, ts, timeout=0, max_stack_depth=depth, scorer=gen.scorer_from_spec(scorer_spec), latent_time=False) if c]
+        on = [c for c in m.ctparse_gen(text, ts, timeout=0, max_stack_depth=depth, scorer=gen.scorer_from_spec(scorer_spec), latent_time=True) if c]
+    except Exception as e:
+        return [("parse-raises(see C01):" + type(e).__name__, repr(e))]
+    a = [(ref_anchor(value(c.resolution), ts), tuple(c.production), c.score) for c in off]
+    b = [(value(c.resolution), tuple(c.production), c.score) for c in on]
+    if a != b:
+        i = next((k for k, (x, y) in enumerate(zip(a, b)) if x != y), min(len(a), len(b)))
+        return [("latent-anchoring-feeds-back-into-the-search" if len(a) != len(b) or (i < len(a) and a[i][1:] != b[i][1:]) else "anchored-value-differs",
+                 "candidate #{}: expected {} got {} ({} vs {} candidates)".format(i, a[i] if i < len(a) else None, b[i] if i < len(b) else None, len(a), len(b)))]
+    return []
+
+
 SCORERS = ["dummy", "default", ("random", 1), ("random", 2), ("random", 3)]
 
 
@@ -323,6 +367,9 @@ def run_text(acc, text, ts, origin, scorers, depths):
                                  reduced_values=len(clo.reduced_values)))
             for b, d in fails or []:
                 acc.fail(b, case, d)
+            if depth != 1:
+                for b, d in check_latent(text, ts, sc, depth):
+                    acc.fail(b, dict(case, latent=True), d)
 
 
 def _shard(arg):
@@ -428,6 +475,9 @@ def replay(case, bucket=None):
     sc = case["scorer"]
     if isinstance(sc, list):
         sc = tuple(sc)
+    if case.get("latent"):
+        fails = check_latent(case["text"], core.parse_ts(case["ts"]), sc, case["depth"])
+        return fails[0] if fails else None
     try:
         fails, clo = check(case["text"], core.parse_ts(case["ts"]), sc, case["depth"])
     except core.HarnessError:
